@@ -8,6 +8,7 @@ from ..core.symexec import run_paths, calls_on
 from ..core.terms import Term
 from .util import evaluator, find_try_handler, raises_in, handler_names
 from .streams import _walk
+from .sem import canon_expr, return_canons, local_function, emptiness
 
 CS = "smpl_extract/cuesheet.py"
 ACT = "smpl_extract/actions.py"
@@ -80,8 +81,9 @@ def rule_Q2(ctx):
         if stripped in k:
             n += 1
             # the emptiness test was made on the same (fully stripped) text
-            tests = [c for c, t, _ in p.conds if "len(" in c and ".pop(0)" in c]
-            ok = bool(tests) and all(c == f"truthy(len({stripped}))" for c in tests) and any(t for c, t, _ in p.conds if c == f"truthy(len({stripped}))")
+            tests = [c for c, t, _ in p.conds if ".pop(0)" in c]
+            good = (f"truthy(len({stripped}))", f"truthy({stripped})", f"-1*len({stripped}) < 0", f"len({stripped}) > 0")
+            ok = bool(tests) and all(c in good for c in tests) and any(t for c, t, _ in p.conds if c in good)
             ctx.ob("Q2", p.ret_node, "a line is returned as non-empty only if its fully stripped text is non-empty (blank lines of spaces/tabs are skipped)", ok,
                    "" if ok else f"emptiness is tested on {tests} but `{stripped}` is returned: a whitespace-only line comes back as '' and callers treat '' as end of input", inst=f"strip-test:{p.cond_key()[:60]}")
     if n == 0:
@@ -135,8 +137,21 @@ def rule_Q2(ctx):
     icls = ctx.prog.klass(CS, "CueSheetIndex", "Q2")
     ok = [f[0] for f in ctx.prog.dataclass_fields(icls)] == ["number", "n_minutes", "n_seconds", "n_frames"]
     ctx.ob("Q2", icls, "CueSheetIndex field order: number, minutes, seconds, frames", ok, "", inst="index-class")
-    ok = "track.indices.append(index)" in body and asg.get("title") == "result.groups()[0]" and "track.title = title" in body
-    ctx.ob("Q2", loop, "every INDEX is appended in order; TITLE is the quoted group", ok, "", inst="index-append")
+    tt = [a for a in ast.walk(loop) if isinstance(a, ast.Assign) and norm(a.targets[0]) == "track.title"]
+    ok = "track.indices.append(index)" in body and len(tt) == 1 and canon_expr(tp, tt[0].value) in ("result.groups()[0]", "result.group(1)")
+    if ok:
+        # the title assignment is guarded by the TITLE regex match
+        t = tt[0]
+        guard = None
+        while t is not None and t is not loop:
+            par = getattr(t, "_parent", None)
+            if isinstance(par, ast.If) and any(n is tt[0] for b in par.body for n in ast.walk(b)):
+                guard = par
+                break
+            t = par
+        prev = [a for a in ast.walk(loop) if isinstance(a, ast.Assign) and norm(a.targets[0]) == "result" and a.lineno < tt[0].lineno]
+        ok = guard is not None and prev and norm(max(prev, key=lambda a: a.lineno).value) == "_TITLE_LINE_REGEX.match(text)"
+    ctx.ob("Q2", loop, "every INDEX is appended in order; TITLE is the quoted group of the TITLE line", ok, "", inst="index-append")
     hdr = {norm(a.targets[0]): norm(a.value) for a in own_nodes(tp) if isinstance(a, ast.Assign) and len(a.targets) == 1 and not any(n is a for n in ast.walk(loop))}
     ok = hdr.get("track_number") == "int(result.groups()[0])" and hdr.get("track_mode") == "result.groups()[1]" and hdr.get("track") == "CueSheetTrack(track_number, track_mode)"
     ctx.ob("Q2", tp, "track number and mode come from the TRACK line's groups", ok, "", inst="track-header")
@@ -149,20 +164,50 @@ def rule_Q2(ctx):
     ok = "_FILE_LINE_REGEX.match(text)" in t and "bin_file_name = result.groups()[0]" in t and "CueSheetTrackAdapter.parse(lines)" in t and "cue_sheet.tracks.append(track)" in t
     ctx.ob("Q2", fp, "FILE: bin name from the quoted group; tracks appended in order", ok, "", inst="file-adapter")
     pc = ctx.fn(CS, "parse_cue_sheet", "Q2")
+    pcfg = ctx.cfg(pc, "Q2")
     wl = [w for w in own_nodes(pc) if isinstance(w, ast.While)]
-    ok = len(wl) == 1
+    ok = len(wl) == 1 and not any(isinstance(n, (ast.Break, ast.Raise, ast.Return)) for n in ast.walk(wl[0]))
+    det = "scan loop not found, or it can stop at a non-FILE line"
     if ok:
-        ifs = [i for i in ast.walk(wl[0]) if isinstance(i, ast.If)]
-        ok = len(ifs) == 1 and not ifs[0].orelse and norm(ifs[0].test) == "match_result" and not any(isinstance(n, (ast.Break, ast.Raise, ast.Return)) for n in ast.walk(wl[0]))
-        asg = {norm(a.targets[0]): norm(a.value) for a in ast.walk(wl[0]) if isinstance(a, ast.Assign) and len(a.targets) == 1}
-        ok = ok and asg.get("match_result") == "_FILE_LINE_REGEX.match(text)"
-    ctx.ob("Q2", pc, "lines before the FILE line that are not FILE lines are skipped (REM, PERFORMER, ...)", ok, "", inst="skip-before-file")
-    ok = any(isinstance(i, ast.If) and norm(i.test) == "len(cue_sheet_files) <= 0" and "BadCueSheet" in raises_in(i.body) for i in own_nodes(pc))
+        lp = pcfg.loop_of(wl[0])
+        n_file = n_skip = 0
+        for kind, path, edge in pcfg.iteration_paths(lp):
+            if kind != "back":
+                continue
+            pr = _walk(ctx, pc, pcfg, path)
+            names = [norm(c.func) for c, e, st in calls_on(pr)]
+            matched = None
+            for ctext, taken, node in pr.conds:
+                if "_FILE_LINE_REGEX.match(" in ctext:
+                    positive = not (ctext.startswith("Is(") or ctext.startswith("not("))
+                    matched = taken if positive else not taken
+            if matched is True:
+                n_file += 1
+                if names.count("CueSheetFileAdapter.parse") != 1:
+                    ok, det = False, "a FILE line is not handed to the FILE parser"
+            elif matched is False:
+                n_skip += 1
+                if "CueSheetFileAdapter.parse" in names:
+                    ok, det = False, "a non-FILE line is handed to the FILE parser"
+        ok = ok and n_file >= 1 and n_skip >= 1
+    ctx.ob("Q2", pc, "lines before the FILE line that are not FILE lines are skipped (REM, PERFORMER, ...); FILE lines go to the FILE parser", ok, "" if ok else det, inst="skip-before-file")
+    prs = run_paths(ctx, pc, rule="Q2")
+    ok = False
+    for p in prs:
+        if p.end == "raise" and (p.raised or "").endswith("BadCueSheet"):
+            for c, t, _n in p.conds:
+                tst = getattr(_n, "test", _n)
+                if isinstance(tst, ast.AST) and emptiness(pc, tst, "cue_sheet_files") is not None:
+                    ok = ok or (emptiness(pc, tst, "cue_sheet_files") == t)
+    for p in prs:
+        if p.end == "return":
+            # every return is on the non-empty side
+            if not any(isinstance(getattr(_n, "test", _n), ast.AST) and emptiness(pc, getattr(_n, "test", _n), "cue_sheet_files") == (not t) for c, t, _n in p.conds):
+                ok = False
     ctx.ob("Q2", pc, "text without a FILE line is not a cue sheet (BadCueSheet)", ok, "", inst="no-file")
-    rets = [r for r in own_nodes(pc) if isinstance(r, ast.Return)]
-    asg = {norm(a.targets[0]): norm(a.value) for a in own_nodes(pc) if isinstance(a, ast.Assign) and len(a.targets) == 1}
-    ok = len(rets) == 1 and asg.get("result") == "cue_sheet_files[0]"
-    ctx.ob("Q2", pc, "the first FILE entry is the cue sheet's meaning", ok, "", inst="first-file")
+    rc = return_canons(pc)
+    ok = rc == ["cue_sheet_files[0]"]
+    ctx.ob("Q2", pc, "the first FILE entry is the cue sheet's meaning", ok, f"{rc}", inst="first-file")
 
 
 def rule_Q3(ctx):
@@ -185,7 +230,24 @@ def rule_Q3(ctx):
     ok = len(calls) == 1
     if ok:
         h = find_try_handler(calls[0], di, {"BadTextFile"})
-        ok = h is not None and any(isinstance(a, ast.Assign) and norm(a) == "is_textfile = False" for a in h.body)
+        ok = h is not None and not any(isinstance(n, (ast.Raise, ast.Return)) for st in h.body for n in ast.walk(st))
+        if ok:
+            # paths through that handler skip the cue-sheet attempt and reach the binary cascade
+            prs = [p for p in run_paths(ctx, di, include_exc=True, rule="Q3", limit=4000) if p.end == "return"]
+            thr = [p for p in prs if any(s_.kind == "except" and s_.ast is h for s_ in p.steps)]
+            feasible = []
+            for p in thr:
+                # drop paths contradicting a flag constant-folded from the handler (is_textfile = False; if is_textfile:)
+                bad = False
+                for c, t, _n in p.conds:
+                    if c in ("truthy(0)",) and t:
+                        bad = True
+                    if c in ("truthy(1)",) and not t:
+                        bad = True
+                if not bad:
+                    feasible.append(p)
+            ok = bool(feasible) and all(not any(norm(c.func) == "attempt_parse_cue_sheet" for c, e, st in calls_on(p))
+                                        and any(norm(c.func) == "is_mdf_image" for c, e, st in calls_on(p)) for p in feasible)
     ctx.ob("Q3", di, "a file that is not ASCII text falls back to the binary detection path", ok, "", inst="fallback-binary")
     calls = [c for c in own_nodes(di) if isinstance(c, ast.Call) and norm(c.func) == "attempt_parse_cue_sheet"]
     ok = len(calls) == 1
@@ -292,18 +354,50 @@ def rule_C2(ctx):
             ok = preds == [f"{x}.mode.lower() != 'audio'"]
         det = "" if ok else f"data-track test is `{norm(v)[:120]}`: it must hold as soon as ANY track is not audio (mixed-mode discs have a data track plus audio tracks)"
     ctx.ob("C2", asg[0] if asg else fn, "a cue sheet counts as a sampler image as soon as one track is not AUDIO", ok, det, inst="exists-data-track")
-    ifs = [i for i in own_nodes(fn) if isinstance(i, ast.If) and norm(i.test) == "binary_track"]
+    def opened_bin(expr, scope):
+        """expr evaluates to open(join(directory, cue.bin_file_name), 'rb') (directly, via locals, or via a same-module helper)"""
+        want = "open(os.path.join(directory, cue_sheet_file.bin_file_name), 'rb')"
+        v = expr
+        for _ in range(4):
+            if isinstance(v, ast.Name):
+                defs = [a for a in ast.walk(scope) if isinstance(a, ast.Assign) and norm(a.targets[0]) == v.id]
+                if len(defs) != 1:
+                    return False
+                v = defs[0].value
+            else:
+                break
+        txt = " ".join(ast.unparse(v).split())
+        # inline simple locals inside the expression
+        for a in ast.walk(scope):
+            if isinstance(a, ast.Assign) and isinstance(a.targets[0], ast.Name) and a.targets[0].id in txt and a.targets[0].id not in ("directory", "cue_sheet_file"):
+                txt = txt.replace(a.targets[0].id, " ".join(ast.unparse(a.value).split()))
+        if txt == want:
+            return True
+        if isinstance(v, ast.Call) and isinstance(v.func, ast.Name):
+            h = local_function(ctx, fn._module, v.func.id)
+            if h is not None and len(v.args) == len(h.args.args):
+                rc = return_canons(h)
+                sub = rc[0] if len(rc) == 1 else ""
+                for prm, arg in zip([a.arg for a in h.args.args], v.args):
+                    sub = sub.replace(prm, " ".join(ast.unparse(arg).split()))
+                return sub == want
+        return False
+
+    KEEP = ("cue_sheet_file", "directory")
+    nonaudio = "next((_c0 for _c0 in cue_sheet_file.tracks if _c0.mode.lower() != 'audio'), None)"
+    ifs = [i for i in own_nodes(fn) if isinstance(i, ast.If) and canon_expr(fn, i.test, KEEP) in (nonaudio, nonaudio + " is not None")]
     ok = len(ifs) == 1
     if ok:
-        t = full(ifs[0])
-        ok = "bin_file_path = os.path.join(directory, cue_sheet_file.bin_file_name)" in t and "bin_file_stream = open(bin_file_path, 'rb')" in t \
-            and "bin_image = determine_image_type(bin_file_stream)" in t and "return bin_image" in t
+        calls = [c for st in ifs[0].body for c in ast.walk(st) if isinstance(c, ast.Call) and norm(c.func) == "determine_image_type"]
+        ok = len(calls) == 1 and len(calls[0].args) == 1 and opened_bin(calls[0].args[0], ifs[0]) and isinstance(ifs[0].body[-1], ast.Return) \
+            and canon_expr(fn, ifs[0].body[-1].value).startswith("determine_image_type(")
     ctx.ob("C2", fn, "data-track cue: the bin file next to the cue sheet is opened and detected like a raw image", ok, "", inst="data-branch")
-    ifs = [i for i in own_nodes(fn) if isinstance(i, ast.If) and norm(i.test) == "all((x.mode.lower() == 'audio' for x in cue_sheet_file.tracks))"]
+    ifs = [i for i in own_nodes(fn) if isinstance(i, ast.If) and canon_expr(fn, i.test, KEEP) in ("all([_c0.mode.lower() == 'audio' for _c0 in cue_sheet_file.tracks])", "all((_c0.mode.lower() == 'audio' for _c0 in cue_sheet_file.tracks))")]
     ok = len(ifs) == 1
     if ok:
-        t = full(ifs[0])
-        ok = "CompactDiskAudioImageAdapter.from_bin_cue(bin_file_stream, cue_sheet_file)" in t and "bin_file_stream = open(bin_file_path, 'rb')" in t and "return image" in t
+        calls = [c for st in ifs[0].body for c in ast.walk(st) if isinstance(c, ast.Call) and norm(c.func) == "CompactDiskAudioImageAdapter.from_bin_cue"]
+        ok = len(calls) == 1 and len(calls[0].args) == 2 and opened_bin(calls[0].args[0], ifs[0]) and norm(calls[0].args[1]) == "cue_sheet_file" \
+            and isinstance(ifs[0].body[-1], ast.Return)
     ctx.ob("C2", fn, "all-audio cue: the bin is read as CDDA with the cue sheet's tracks", ok, "", inst="audio-branch")
     ok = norm(fn.body[0]) == "cue_sheet_file = parse_cue_sheet(lines)"
     ctx.ob("C2", fn, "the decision is taken on the parsed cue sheet", ok, "", inst="parse-first")
